@@ -151,11 +151,24 @@ pub fn oneshot_decode<const NO: usize, const NR: usize>(kk: usize, r: usize, sup
     // success paths that restore shards are outside this harness
     let complete = !violated && NO == kk;
     k::assume(violated || complete);
-    let res = reed_solomon_simd::decode(kk, r, o.iter().map(|x| (x.0, x.1)), rec.iter().map(|x| (x.0, x.1)));
+    // structurally empty iterators for empty lists (an iterator over a zero-length array makes
+    // CBMC explore the Some branch with garbage)
+    let res = if NO == 0 && NR == 0 {
+        reed_solomon_simd::decode(kk, r, core::iter::empty::<(usize, &[u8])>(), core::iter::empty::<(usize, &[u8])>())
+    } else if NR == 0 {
+        reed_solomon_simd::decode(kk, r, o.iter().map(|x| (x.0, x.1)), core::iter::empty::<(usize, &[u8])>())
+    } else if NO == 0 {
+        reed_solomon_simd::decode(kk, r, core::iter::empty::<(usize, &[u8])>(), rec.iter().map(|x| (x.0, x.1)))
+    } else {
+        reed_solomon_simd::decode(kk, r, o.iter().map(|x| (x.0, x.1)), rec.iter().map(|x| (x.0, x.1)))
+    };
     match res {
         Ok(map) => {
             assert!(!violated, "one-shot decode returned Ok for an input that violates a documented precondition");
             assert!(map.is_empty(), "all originals were given but the result is not empty");
+            // the map travelled through a Result payload: CBMC no longer sees that it is the empty
+            // singleton and would walk hashbrown's element-dropping code
+            core::mem::forget(map);
         }
         Err(e) => {
             assert!(violated, "one-shot decode failed although no precondition is violated");
